@@ -190,8 +190,52 @@ def probs_nested(ctx, case, regions, kw):
     return True
 
 
+def huge_window_case(ctx):
+    """analysis windows of ~94 KiB (48 kHz, 16 bit, stereo, 0.49 s) through every file path."""
+    import os
+    import tempfile
+
+    rate, width, channels = 48000, 2, 2
+    block = 23520
+    w = block / rate
+    case = dict(rate=rate, width=width, channels=channels, block=block, w=w, min_len=1, max_len=3, max_sil=1, drop=False, strict=False,
+                v=[0, 1, 1, 0, 0, 0, 1, 1, 1, 1, 0, 1], partial=777, uc=None, thr=50.0, pcm_seed=7, random_pcm=False)
+    import struct
+
+    loud = struct.pack("<4h", 9000, -7000, -9000, 7000) * (block // 2)   # two stereo samples per unit, ~78 dB
+    quiet = bytes(block * width * channels)
+    windows = [loud if x else quiet for x in case["v"]]
+    windows[-1] = windows[-1][: case["partial"] * width * channels]
+    data = b"".join(windows)
+    verdicts = list(case["v"])
+    expected = AC.expected_regions(case, data, verdicts)
+    kw = AC.split_kwargs(case)
+    fd, path = tempfile.mkstemp(prefix="vf-c05-big-", suffix=".raw")
+    os.close(fd)
+    try:
+        with open(path, "wb") as fp:
+            fp.write(data)
+        for api, fn in (("raw_file_lazy", lambda: auditok.split(path, large_file=True, **kw, **AC.audio_kwargs(case))),
+                        ("raw_file", lambda: auditok.split(path, **kw, **AC.audio_kwargs(case))),
+                        ("function", lambda: auditok.split(data, **kw, **AC.audio_kwargs(case)))):
+            ctx.count("huge_window_cases")
+            ctx.case(("huge-window", api), True)
+            try:
+                regions = list(fn())
+            except Exception as exc:
+                ctx.violation("exception:" + type(exc).__name__, {"case": {"huge_window": api}, "exception": repr(exc)[:200]})
+                continue
+            probs, got = AC.check_regions(regions, case, data, expected)
+            for key, detail in probs:
+                ctx.violation(key, dict(detail, case={"huge_window": api, "block_bytes": block * width * channels}))
+    finally:
+        os.unlink(path)
+
+
 def run_shard(ctx):
     conf = TIERS[ctx.tier]
+    if ctx.shard == 3:
+        huge_window_case(ctx)
     rng = ctx.rng("cases")
     for i in range(conf["cases"]):
         case = AC.random_split_case(rng, max_windows=40 if ctx.tier == "quick" else 120, small_rate=(i % 4 != 0))
@@ -207,6 +251,6 @@ def replay(ctx, case):
 def inconclusive(merged, tier):
     c = merged["counters"]
     return [f"monitor never observed {k}" for k in
-            ("regions_observed", "regions_expected", "api_function", "api_method", "api_method_on_region_with_start", "api_function_on_region_with_start", "api_raw_file_lazy", "api_wav_file_lazy", "api_used_buffer_source", "api_used_reader", "api_stdin_pipe", "api_recorder_second_pass", "api_region_with_conflicting_audio_kwargs", "api_split_and_plot", "cases_threshold_zero", "nested_splits", "width_1", "width_2", "width_4",
+            ("regions_observed", "regions_expected", "api_function", "api_method", "api_method_on_region_with_start", "api_function_on_region_with_start", "huge_window_cases", "api_raw_file_lazy", "api_wav_file_lazy", "api_used_buffer_source", "api_used_reader", "api_stdin_pipe", "api_recorder_second_pass", "api_region_with_conflicting_audio_kwargs", "api_split_and_plot", "cases_threshold_zero", "nested_splits", "width_1", "width_2", "width_4",
              "channels_1", "channels_2", "channels_3", "cases_with_partial_last_window", "regions_ending_in_partial_window",
              "cases_nonintegral_window") if c.get(k, 0) == 0]
